@@ -203,6 +203,7 @@ func (b *Broker) Close() {
 		defer os.RemoveAll(b.Dir)
 	}
 	b.cancel()
+	b.Svc.VerifClosePresence() // its poller would keep the whole service reachable for ever
 	func() {
 		defer func() { recover() }()
 		b.Svc.VerifSwarm().VerifState().Close()
@@ -210,6 +211,10 @@ func (b *Broker) Close() {
 	if st := b.Svc.VerifStorage(); st != nil {
 		st.Close()
 	}
+	for _, p := range b.Svc.VerifSwarm().VerifPeers() {
+		p.Close() // stops the peer's 5 ms ticker
+	}
+	b.Svc.VerifSwarm().VerifDetach() // the mesh router's goroutines cannot be stopped and would keep everything reachable
 }
 
 // Key mints a key through the real keygen.CreateKey with the master key.
